@@ -2,37 +2,78 @@
 from engine.spec import fn, inline_fn
 from contracts.mathfun import LIBM
 import z3 as _z3
-from engine.prelude import RNG_NEXT, RNG_SEED
+from engine.prelude import RNG_SEED, DRAW_ENGINE, DRAW_DIST
 
 RN = 'lib/random.cpp'
 AW = 'lib/awgn.cpp'
 ENV = dict(LIBM)
-ENV.update({'RNG_NEXT': RNG_NEXT, 'RNG_SEED': RNG_SEED})
+ENV.update({'RNG_SEED': RNG_SEED})
 
-# state after k draws
-RNGK = _z3.Function('rng_after', _z3.IntSort(), _z3.IntSort(), _z3.IntSort())
-NORMAL = _z3.Function('draw_normal', _z3.IntSort(), _z3.RealSort(), _z3.RealSort(), _z3.RealSort())
-ENV['RNGK'] = RNGK
-ENV['NORMAL'] = NORMAL
-ENV['RNGK_STEP'] = lambda s, k: _z3.And(RNGK(s, 0) == s, _z3.Implies(k >= 0, RNGK(s, k + 1) == RNG_NEXT(RNGK(s, k))))
+# A block generator constructs its distribution afresh (state 0) and draws n times. ES(kind)(s, k) / DS(kind)(s, k) are the
+# engine / distribution state after k draws starting from engine state s; the k-th value is draw(DS, ES, params).
+# Nothing is assumed about how many engine steps a draw takes (libstdc++'s normal_distribution draws pairs and keeps one),
+# so nothing is claimed about splitting a block into two calls -- only that the block is a function of the engine state at
+# entry, which is what "rng(seed) replays the same values" needs.
+I_ = _z3.IntSort()
+
+
+def ES(kind):
+    return _z3.Function('engine_after_k_' + kind, I_, I_, I_)
+
+
+def DS(kind):
+    return _z3.Function('dist_after_k_' + kind, I_, I_, I_)
+
+
+def block_step(kind):
+    def f(s, k):
+        s, k = getattr(s, 'z', s), getattr(k, 'z', k)
+        e, d = ES(kind), DS(kind)
+        return _z3.And(e(s, 0) == s, d(s, 0) == 0,
+                       _z3.Implies(k >= 0, _z3.And(e(s, k + 1) == DRAW_ENGINE(kind)(d(s, k), e(s, k)),
+                                                   d(s, k + 1) == DRAW_DIST(kind)(d(s, k), e(s, k)))))
+    return f
+
+
+NORMAL = _z3.Function('draw_normal', I_, I_, _z3.RealSort(), _z3.RealSort(), _z3.RealSort())
+UNI = _z3.Function('draw_uniform_real', I_, I_, _z3.RealSort(), _z3.RealSort(), _z3.RealSort())
+UNII = _z3.Function('draw_uniform_int', I_, I_, I_, I_, I_)
+for kind in ('normal', 'uniform_real', 'uniform_int'):
+    ENV['ES_' + kind] = ES(kind)
+    ENV['DS_' + kind] = DS(kind)
+    ENV['STEP_' + kind] = block_step(kind)
+    ENV['E1_' + kind] = DRAW_ENGINE(kind)
+ENV.update({'NORMAL': NORMAL, 'UNI': UNI, 'UNII': UNII})
+
+
+def block(name, sig, key, kind, draw, requires, rng_params=''):
+    """n draws of one freshly constructed distribution: values and final engine state are functions of the entry state"""
+    val = '%s(DS_%s(old.g_engine, k), ES_%s(old.g_engine, k)%s)' % (draw, kind, kind, rng_params)
+    fn(name, RN, sig=sig, key=key, serves=['C19', 'C09', 'C05'], extra_env=ENV, assigns=['g_engine'], globals=['g_engine'],
+       requires=requires, throws='False',
+       ensures=[('length', 'result.len == n'),
+                ('stream', 'forall(lambda k: Implies(And(0 <= k, k < n), result[k] == %s))' % val),
+                ('state', 'g_engine == ES_%s(old.g_engine, n)' % kind)],
+       loops={1: {'facts': ['STEP_%s(old.g_engine, i)' % kind],
+                  'inv': [('len', 'r.len == n'), ('state', 'And(g_engine == ES_%s(old.g_engine, i), dist.st == DS_%s(old.g_engine, i))' % (kind, kind)),
+                          ('done', 'forall(lambda k: Implies(And(0 <= k, k < i), r[k] == %s))' % val)]}})
+
 
 fn('dsplib::rng', RN, serves=['C19', 'C09'], extra_env=ENV, assigns=['g_engine'], globals=['g_engine'],
    ensures=[('reseeds_whole_state', 'g_engine == RNG_SEED(If(seed >= 0, seed, seed + 18446744073709551616))')])
 
 # every generator draws only from the per-thread engine: its output is a function of the engine state at entry, and the
 # state afterwards is a function of that state and the number of draws  =>  rng(seed) replays the stream
-fn('dsplib::randn', RN, sig='dsplib::arr_real (int)', key='randn(n)', serves=['C19', 'C09', 'C05'], extra_env=ENV, assigns=['g_engine'], globals=['g_engine'],
-   requires=[('size', 'n >= 0')], throws='False',
-   ensures=[('length', 'result.len == n'),
-            ('stream', 'forall(lambda k: Implies(And(0 <= k, k < n), result[k] == NORMAL(RNGK(old.g_engine, k), 0, 1)))'),
-            ('state', 'g_engine == RNGK(old.g_engine, n)')],
-   loops={1: {'facts': ['RNGK_STEP(old.g_engine, i)'],
-              'inv': [('len', 'r.len == n'), ('state', 'g_engine == RNGK(old.g_engine, i)'),
-                      ('done', 'forall(lambda k: Implies(And(0 <= k, k < i), r[k] == NORMAL(RNGK(old.g_engine, k), 0, 1)))')]}})
+block('dsplib::randn', 'dsplib::arr_real (int)', 'randn(n)', 'normal', 'NORMAL', [('size', 'n >= 0')], ', 0, 1')
+block('dsplib::rand', 'dsplib::arr_real (int)', 'rand(n)', 'uniform_real', 'UNI', [('size', 'n >= 0')], ', 0, 1')
+block('dsplib::randi', 'dsplib::arr_int (std::array<int, 2>, int)', 'randi(range,n)', 'uniform_int', 'UNII',
+      [('pair', 'range.len == 2'), ('ordered', 'range[0] <= range[1]'), ('size', 'n >= 0')], ', range[0], range[1]')
 
 fn('dsplib::randi', RN, sig='int (std::array<int, 2>)', key='randi(range)', serves=['C19', 'C09', 'C05'], extra_env=ENV, assigns=['g_engine'], globals=['g_engine'],
    requires=[('pair', 'range.len == 2'), ('ordered', 'range[0] <= range[1]')],
-   ensures=[('inclusive_bounds', 'And(range[0] <= result, result <= range[1])'), ('state', 'g_engine == RNG_NEXT(old.g_engine)')])
+   ensures=[('inclusive_bounds', 'And(range[0] <= result, result <= range[1])'),
+            ('value', 'result == UNII(0, old.g_engine, range[0], range[1])'),
+            ('state', 'g_engine == E1_uniform_int(0, old.g_engine)')])
 fn('dsplib::randi', RN, sig='int (int)', key='randi(imax)', serves=['C19', 'C05'], extra_env=ENV, assigns=['g_engine'], globals=['g_engine'],
    requires=[('ordered', 'imax >= 1')],
    ensures=[('inclusive_bounds', 'And(1 <= result, result <= imax)')])
